@@ -608,56 +608,61 @@ def _marshal_grid(rep, out_m, out_u, now, tyme, iso8601, samples, bad, n,
 
 
 def _fixture(ctx):
+    """TimeFixture is one of the two ways the statement names for setting the
+    override: what is compared is the override instant after setUp, after
+    each advance_* method and after a second setUp - not which timeutils
+    helper the fixture calls."""
     rep, world = ctx.report, ctx.world
     cls = world.cls('fixture', 'TimeFixture')
-    rep.analysed('fixture.TimeFixture.setUp')
-    calls = []
+    rep.analysed('fixture.TimeFixture.setUp',
+                 'fixture.TimeFixture.advance_time_delta',
+                 'fixture.TimeFixture.advance_time_seconds')
+    delta, secs = T('sym', 'delta'), T('sym', 'seconds')
 
-    def rec(name):
-        def beh(interp, args, kwargs):
-            interp.effect('call', name, tuple(interp.termify(a)
-                                              for a in args))
-            return K(None)
-        return beh
+    def cur():
+        return world.func_attrs['utcnow'].get('override_time')
 
     def thunk(interp):
+        world.func_attrs['utcnow'] = {'override_time': K(None)}
+        interp.types[OVERRIDE] = 'datetime'
         obj = interp.call(cls, [OVERRIDE])
-        interp.effects[:] = []
         interp.call(interp.get_attr(obj, 'setUp'), [])
-        interp.call(interp.get_attr(obj, 'advance_time_seconds'), [K(5)])
-        interp.call(interp.get_attr(obj, 'advance_time_delta'),
-                    [T('sym', 'delta')])
+        v1 = cur()
+        interp.call(interp.get_attr(obj, 'advance_time_seconds'), [secs])
+        v2 = cur()
+        interp.call(interp.get_attr(obj, 'advance_time_delta'), [delta])
+        v3 = cur()
         # the same fixture object used a second time
         interp.call(interp.get_attr(obj, 'setUp'), [])
-        return K(None)
+        return TupleV([v1, v2, v3, cur()])
 
     def extra(interp):
-        for n in ('set_time_override', 'clear_time_override',
-                  'advance_time_seconds', 'advance_time_delta'):
-            interp.stubs[n] = rec(n)
-    outcomes, _i = extract(world, thunk, setup=_setup(extra))
-    ok = False
-    detail = [o.brief() for o in outcomes]
-    notes = inexact_notes(outcomes)
-    if notes:
-        rep.undecided('R12.3', 'TimeFixture', 'inexact: %s' % notes)
-        return
-    if len(outcomes) == 1 and outcomes[0].kind == 'return':
-        o = outcomes[0]
-        sets = o.calls('set_time_override')
-        cleanup = [e for e in o.effects if e[0] == 'call' and
-                   e[1] == '.addCleanup']
-        adv = o.calls('advance_time_seconds')
-        advd = o.calls('advance_time_delta')
-        ok = len(sets) == 2 and sets[0][2] == (OVERRIDE,) and \
-            sets[1][2] == (OVERRIDE,) and \
-            len(cleanup) == 2 and \
-            T('func', 'clear_time_override') in cleanup[0][2] and \
-            len(adv) == 1 and adv[0][2] == (K(5),) and \
-            len(advd) == 1 and advd[0][2] == (T('sym', 'delta'),)
-        detail = [e[:3] for e in o.effects if e[0] == 'call']
-    rep.check('R12.3', 'TimeFixture', ok,
-              'setUp installs the constructor\'s instant through '
-              'set_time_override (also when the fixture is set up a second '
-              'time after advancing), registers clear_time_override as '
-              'cleanup and advance_* delegates: %s' % (detail,))
+        interp.decide = lambda i, t: True if t == OVERRIDE else None
+        interp.not_none[OVERRIDE] = True
+        interp.types[delta] = 'timedelta'
+    def iter_hook(interp, it):
+        # the override is a single instant here (never a list of instants)
+        raise AbsRaise(T('exc', 'TypeError', 'not iterable'))
+    world.sym_iter_hook = iter_hook
+    try:
+        outcomes, _i = extract(world, thunk,
+                               setup=_setup(extra, stub_now=False))
+    finally:
+        world.sym_iter_hook = None
+        world.func_attrs.pop('utcnow', None)
+        world.envs.pop('oslo_utils.timeutils', None)
+
+    def oracle(v):
+        o = v['override']
+        a = o + dt.timedelta(0, v['seconds'])
+        return ('return', (o, a, a + v['delta'], o))
+    grid_compare(rep, 'R12.3', 'TimeFixture',
+                 'override instant after setUp / advance_time_seconds / '
+                 'advance_time_delta / a second setUp', outcomes,
+                 {OVERRIDE: (dt.datetime(2030, 1, 1, 0, 0, 3, 250000),
+                             dt.datetime(1969, 12, 31, 23, 59, 58, 500000)),
+                  secs: (0, 5, -1, 0.25, 86400.5),
+                  delta: (dt.timedelta(0), dt.timedelta(seconds=7.25),
+                          dt.timedelta(days=-1, microseconds=1))},
+                 oracle, hooks=[_hook],
+                 value_eq=lambda g, w: tuple(g) == tuple(w))
